@@ -36,6 +36,10 @@ func uvlen(v uint64) int {
 	return 10
 }
 
+func verifLemma_uvlen_range(v uint64) {
+	verifrt.Assert(1 <= uvlen(v) && uvlen(v) <= 10, "uvlen-range")
+}
+
 // uvLen is the number of bytes of the uvarint starting at b[p] (the first
 // byte below 0x80 ends it), or 0 if none ends within 10 bytes. It reads
 // b[p..p+10) without regard to len(b); callers state p+uvLen(b,p) <= len(b).
@@ -128,6 +132,46 @@ func verifLemma_uv_frame(a []byte, b []byte, p int) {
 	verifrt.Assert(uvLen(b, p) == n, "frame-len")
 	verifrt.Assert(uvOK(b, p) == uvOK(a, p), "frame-ok")
 	verifrt.Assert(uvVal(b, p) == uvVal(a, p), "frame-val")
+}
+
+// ---- delta/zigzag coded sequences (ints.go) ---------------------------------
+
+// dE is the wire value of element j of a delta coded []uint64: the zigzag
+// encoding of its difference to the previous element (0 before the first).
+func dE(vs []uint64, j int) uint64 {
+	last := int64(0)
+	if j > 0 {
+		last = int64(vs[j-1])
+	}
+	return ZigzagEncode(int64(vs[j]) - last)
+}
+
+// dpos is the byte offset of element j: the sum of the uvarint lengths before it.
+func dpos(vs []uint64, j int) int {
+	if j <= 0 {
+		return 0
+	}
+	return dpos(vs, j-1) + uvlen(dE(vs, j-1))
+}
+
+// dAt: element j of vs is stored, canonically uvarint coded, at its offset in b.
+func dAt(b []byte, vs []uint64, j int) bool {
+	p := dpos(vs, j)
+	return uvOK(b, p) && uvVal(b, p) == dE(vs, j) && uvLen(b, p) == uvlen(dE(vs, j))
+}
+
+// C09: delta coded uint64 sequences of every length decode to what was
+// encoded and consume exactly the bytes written. Both calls are replaced by
+// the contracts proved for the two functions; k is the universally
+// quantified element index.
+func verifLemma_C09_delta_uint64s(vs []uint64, buffer []byte, k int) {
+	n := MarshalDeltaCodedUint64s(vs, buffer)
+	verifrt.Ghost("w", vs)
+	got, m := UnmarshalDeltaCodedUint64(make([]uint64, 0), len(vs), buffer)
+	verifrt.Assert(m == n, "consumes-what-was-written")
+	verifrt.Assert(len(got) == len(vs), "length")
+	verifrt.Assume(0 <= k && k < len(vs))
+	verifrt.Assert(got[k] == vs[k], "element")
 }
 
 // ---- C10 -----------------------------------------------------------------
